@@ -192,14 +192,14 @@ ChainInit(c0) ==
 
 BInit ==
     /\ \E sc \in BStakeChoices, mv \in BMaxVals, co \in BCoeffs, k \in BDistMults, off \in BDistOffs, s0 \in BStarts,
-          vm \in BVotingMs, w \in BWindows, jm \in BJailMs, en \in BOOLEAN :
+          vm \in BVotingMs, w \in BWindows, jm \in BJailMs, en \in BOOLEAN, dn \in MaxDenoms :
          /\ mv >= sc.gen       \* a genesis that declares more bonded validators than seats is not a state the chain reaches
          /\ LET c0 == [mode |-> "chain", gen |-> sc.gen, spare |-> Len(sc.stakes) - sc.gen, stakes |-> sc.stakes,
-                    maxVals |-> mv, coeff |-> co, dist |-> "0", enabled |-> en, start |-> s0, votingMs |-> vm,
+                    maxVals |-> mv, coeff |-> co, dist |-> "0", maxDenom |-> dn, enabled |-> en, start |-> s0, votingMs |-> vm,
                     window |-> w, jailMs |-> jm, slashDs |-> "0", slashDt |-> "0"] IN
             cfg = [c0 EXCEPT !.dist = IF k = 0 THEN FarCap ELSE BigAdd(BigMul(BigOfInt(k), FirstMint(c0)), off)]
     /\ ch = ChainInit(cfg)
-    /\ st = [enabled |-> cfg.enabled, coeff |-> cfg.coeff, max |-> BigAdd(InitSupply, cfg.dist), prevTs |-> "0",
+    /\ st = [enabled |-> cfg.enabled, coeff |-> cfg.coeff, max |-> BigAdd(InitSupply, cfg.dist), maxDenom |-> cfg.maxDenom, prevTs |-> "0",
              supply |-> InitSupply, bonded |-> BondedPool(ch), fee |-> "0"]
     /\ gh = GhostInit(st)
     /\ hist = <<>>
